@@ -764,6 +764,111 @@ def exhaustive_cases(maxlen):
             for e in ends:
                 for tail in ([], ["send"], ["throwx"]):
                     yield {"kind": kind, "script": sc, "ops": start + list(e) + tail, "shape": "plain"}
+    # multi-step fault sequences on an async generator: run to a yield, throw an exception through a
+    # NOT-YET-STARTED awaitable (ag_running stays clear) so that the body handles it and suspends in a
+    # callee, then throw / close the same way
+    for sc in ("y:c N r", "y:b N:b y r", "o y:c N:c N r", "y:c a N r"):
+        for shape in ("plain", "freecell"):
+            for aw1 in ("asend", "athrow", "aclose"):
+                for mid in (["throw"], ["throw", "send"], ["throw", "throw"]):
+                    for aw2 in ([], ["asend"], ["athrow"], ["aclose"]):
+                        for end in (["throwx"], ["throw"], ["send"], ["close", "asend", "throwx"]):
+                            yield {"kind": "ag", "script": sc, "shape": shape,
+                                   "ops": ["asend", "send", aw1] + mid + aw2 + end}
+
+
+# ---------------------------------------------------------------------------------------
+# code objects: functions compiled from source again and again in a fixed sequence of shapes
+# (a freed code object's address is reused by the next one), and one function with more than 256
+# local variables whose captured variable needs an EXTENDED_ARG in the prologue
+
+def _wide(kind):
+    body = "".join(f"    v{i} = {i}\n" for i in range(300))
+    tail = {"ag": "    yield k()\n", "co": "    await tok()\n    return k()\n",
+            "gc": "    yield 'tok'\n    return k()\n"}[kind]
+    head = {"ag": "async def f():\n", "co": "async def f():\n", "gc": "@types.coroutine\ndef f():\n"}[kind]
+    return head + body + "    k = lambda: v299\n" + tail
+
+
+CODE_TEMPLATES = {
+    "ag-plain": "async def f():\n    yield 1\n",
+    "ag-free": "def mk():\n    t = [0]\n    async def f():\n        t[0] += 1\n        yield t[0]\n    return f\nf = mk()\n",
+    "ag-cell": "async def f():\n    a = 1\n    k = lambda: a\n    yield k()\n",
+    "ag-two-cells-free": ("def mk():\n    t = [0]\n    async def f():\n        a = 1\n        b = 2\n"
+                          "        k = lambda: (a, b, t)\n        yield k()\n    return f\nf = mk()\n"),
+    "ag-wide-cell": _wide("ag"),
+    "co-plain": "async def f():\n    await tok()\n",
+    "co-cell": "async def f():\n    a = 1\n    k = lambda: a\n    await tok()\n    return k()\n",
+    "co-wide-cell": _wide("co"),
+    "gc-free": "def mk():\n    t = [0]\n    @types.coroutine\n    def f():\n        t[0] += 1\n        yield 'tok'\n    return f\nf = mk()\n",
+    "gc-wide-cell": _wide("gc"),
+}
+CODE_SEQUENCE = ["ag-plain", "ag-free", "ag-cell", "ag-two-cells-free", "co-plain", "ag-free", "ag-plain", "co-cell",
+                 "gc-free", "ag-two-cells-free", "ag-cell", "ag-plain", "ag-wide-cell", "co-wide-cell", "gc-wide-cell"]
+
+
+def code_stream(ctx, rounds, upto=None):
+    """Each step: compile a template, create the object, check new / (after one resume) suspended /
+    (after close) finished, drop everything, collect garbage."""
+    import gc
+    n = 0
+    passed = set()           # templates that were classified correctly earlier in the stream
+    for r in range(rounds):
+        for name in CODE_SEQUENCE:
+            n += 1
+            if upto is not None and n > upto:
+                return
+            ns = {"tok": tok, "types": types}
+            exec(compile(CODE_TEMPLATES[name], f"<c20 code {name} #{n}>", "exec"), ns)
+            obj = ns["f"]()
+            kind = name[:2]
+            seen = []
+
+            def look(truth):
+                h = helpers_of(obj)
+                verdicts = [v for v, b in zip(("new", "suspended", "finished"), h) if b is True or b == 1]
+                got = verdicts[0] if len(verdicts) == 1 and not any(isinstance(x, str) for x in h) else (
+                    "executing" if not verdicts and not any(isinstance(x, str) for x in h) else str(h))
+                seen.append((truth, got, fmt_obs(attrs_of(obj, kind), h)))
+
+            look("new")
+            try:
+                if kind == "ag":
+                    a = obj.asend(None)
+                    try:
+                        a.send(None)
+                    except StopIteration:
+                        pass
+                else:
+                    obj.send(None)
+                look("suspended")
+                if kind == "ag":
+                    a = obj.aclose()
+                    try:
+                        a.send(None)
+                    except StopIteration:
+                        pass
+                else:
+                    obj.close()
+                look("finished")
+            except Exception as e:  # noqa: BLE001
+                raise core.InfraError(f"code stream {name}: {type(e).__name__}: {e}")
+            ctx.case(f"code:{name}:{n}", ["code-object-shape-" + name, "recompiled-code-object"] if r else
+                     ["code-object-shape-" + name])
+            for truth, got, text in seen:
+                if got != truth:
+                    ctx.violation(f"{kind}:{truth}-reported-as-{got}" + (":recompiled-code" if name in passed
+                                                                        else ":code-shape-" + name.split("-", 1)[1]),
+                                  f"code stream: a {name} object that is {truth} is reported {got} "
+                                  f"(compilation #{n} of the fixed sequence)",
+                                  {"stream": "code", "template": name, "step": n, "attributes": text},
+                                  expected=truth, observed=got, theorem="Asynkit.C20.helpers_exact")
+                    break
+            else:
+                passed.add(name)
+            obj = ns = a = None
+            gc.collect()
+    ctx.extra["code_stream_steps"] = n
 
 
 def run(ctx):
@@ -771,6 +876,7 @@ def run(ctx):
     rng = ctx.rng
     explore(ctx, corpus_cases(), label="corpus: ")
     explore(ctx, list(exhaustive_cases(5 if ctx.thorough() else 4)), label="exhaustive: ")
+    code_stream(ctx, 40 if ctx.thorough() else 12)
     n = 300000 if ctx.thorough() else 30000
     cases = [gen_case(rng) for _ in range(n)]
     for i in range(0, n, 5000):
@@ -781,5 +887,8 @@ def run(ctx):
 
 def replay(ctx, data):
     warnings.filterwarnings("ignore", category=RuntimeWarning)
+    if data["case"].get("stream") == "code":
+        code_stream(ctx, 1000, upto=data["case"]["step"])
+        return
     case = {k: data["case"][k] for k in ("kind", "script", "ops", "shape") if k in data["case"]}
     explore(ctx, [case], label="replay: ")
